@@ -170,14 +170,16 @@ class RetractionState(CommonMixin):
                 )
                 return returnCommands
 
-            eAxis.current += amount
+            originalPosition = eAxis.current
+            eAxis.current = originalPosition + amount
 
             returnCommands.append(
                 # Set logical extruder position
                 "G92 E{e}".format(e=formatGcodeNumber(eAxis.nativeToLogical()))
             )
 
-            eAxis.current -= amount
+            # Restore the exact value (adding and subtracting the amount can leave a rounding residue)
+            eAxis.current = originalPosition
 
             # Use "G1" over "G0", since an extrusion amount is being supplied
             returnCommands.append(
